@@ -127,7 +127,7 @@ type Job struct {
 // fault kinds enumerated at every in-sync interaction of a reference run
 var enumKinds = map[string]map[byte][]string{
 	"C09": {'A': {"crash-before", "crash-after", "404", "409", "410", "422", "500", "neterr", "lost"}, 'H': {"crash"}},
-	"C12": {'A': {"404", "409", "exists", "410", "422", "500", "neterr", "lost"}, 'H': {"500", "429", "refused", "stall", "garbage"}},
+	"C12": {'A': {"404", "409", "exists", "410", "422", "500", "503", "504", "neterr", "lost"}, 'H': {"500", "429", "refused", "stall", "garbage"}},
 }
 
 type RunLine struct {
